@@ -185,6 +185,13 @@ def _stores(fn_or_stmts):
     return out
 
 
+class _Static(str):
+    """source text of a dotted constant (Class.NAME) that may appear inside a constant tuple"""
+
+    def __repr__(self):
+        return str(self)
+
+
 def _literal(node, env):
     """value of a constant expression built from literals, earlier constants and struct.calcsize; raises ValueError otherwise"""
     if isinstance(node, ast.Constant):
@@ -208,6 +215,9 @@ def _literal(node, env):
                         ast.BitOr: lambda: a | b, ast.BitAnd: lambda: a & b, ast.FloorDiv: lambda: a // b, ast.Pow: lambda: a ** b}[type(node.op)]()
             except Exception:
                 pass
+    if isinstance(node, ast.Attribute) and env.get('__static__') and _root(node) is not None and _root(node)[:1].isupper() and all(
+            isinstance(x, (ast.Attribute, ast.Name)) for x in ast.walk(node) if not isinstance(x, ast.expr_context)):
+        return _Static(_txt(node))              # Class.CONSTANT / module.Class.CONSTANT inside a constant table
     if isinstance(node, ast.Attribute) and _txt(node) in ('np.pi', 'math.pi', 'numpy.pi'):
         import math
         return math.pi
@@ -265,10 +275,10 @@ def inline_constants(tree, ref):
             if t in known or cnt[t] != 1:
                 continue
             try:
-                v = _literal(st.value, env)
+                v = _literal(st.value, dict(env, __static__=True))
             except ValueError:
                 continue
-            if isinstance(v, (int, float, str, bytes, tuple)) and not isinstance(v, bool):
+            if isinstance(v, (int, float, str, bytes, tuple)) and not isinstance(v, (bool, _Static)):
                 env[t] = v
     # names re-bound anywhere else (global statements, function locals of the same name are handled by shadowing below)
     for node in ast.walk(tree):
@@ -996,6 +1006,9 @@ def _const_items(it):
         return [ast.Constant(value=k) for k in r]
     if isinstance(it, (ast.Tuple, ast.List)) and 1 <= len(it.elts) <= 8 and all(isinstance(e, ast.Constant) for e in it.elts):
         return [copy.deepcopy(e) for e in it.elts]
+    if isinstance(it, (ast.Tuple, ast.List)) and 1 <= len(it.elts) <= 8 and all(
+            isinstance(e, (ast.Tuple, ast.List)) and all(isinstance(x, ast.Constant) or (isinstance(x, ast.Attribute) and _simple_arg(x)) for x in e.elts) for e in it.elts):
+        return [copy.deepcopy(e) for e in it.elts]          # rows of a constant table
     return None
 
 
@@ -1045,10 +1058,28 @@ def unroll_loops(tree, ref):
                 changed = False
                 for block in _blocks(fn):
                     for i, st in enumerate(block):
-                        if not isinstance(st, ast.For) or st.orelse or not isinstance(st.target, ast.Name):
+                        if not isinstance(st, ast.For) or st.orelse:
                             continue
                         vals = _const_items(st.iter)
                         if vals is None or _shape_txt(st) in keep:
+                            continue
+                        if isinstance(st.target, (ast.Tuple, ast.List)) and all(isinstance(e, ast.Name) for e in st.target.elts) and \
+                                all(isinstance(r, (ast.Tuple, ast.List)) and len(r.elts) == len(st.target.elts) for r in vals):
+                            names_ = [e.id for e in st.target.elts]
+                            inner = [n for s_ in st.body for n in ast.walk(s_)]
+                            if any(isinstance(n, (ast.Break, ast.Continue, ast.Return, ast.FunctionDef, ast.Lambda)) for n in inner) or \
+                                    any(isinstance(n, ast.Name) and n.id in names_ and isinstance(n.ctx, (ast.Store, ast.Del)) for n in inner) or \
+                                    any(isinstance(n, ast.Name) and n.id in names_ and isinstance(n.ctx, ast.Load) and not _rebound_around(fn, n) for s_ in block[i + 1:] for n in ast.walk(s_)):
+                                continue
+                            new = []
+                            for r in vals:
+                                sub = _Subst(dict(zip(names_, r.elts)))
+                                new.extend(_AttrCalls().visit(sub.visit(copy.deepcopy(s_))) for s_ in st.body)
+                            block[i:i + 1] = new
+                            changed = True
+                            total += 1
+                            break
+                        if not isinstance(st.target, ast.Name) or any(isinstance(r, (ast.Tuple, ast.List)) for r in vals):
                             continue
                         v = st.target.id
                         inner = [n for s_ in st.body for n in ast.walk(s_)]
